@@ -42,7 +42,7 @@ func genC15Plan(r *sim.Rng, tier string) RelayPlan {
 		prof := RelayProfile{BigUnits: 0.05}
 		if withRtsp {
 			prof.BigUnits = 0
-			n += 200 // the stream has to fill a stalled player's queue and keep flowing across two liveness sweeps
+			n += 600 // the stream has to fill a stalled player's queue and keep flowing across two liveness sweeps
 		}
 		genUnits(r.Fork(fmt.Sprintf("u%d", s)), &p, prof, n)
 		if withRtsp {
@@ -83,6 +83,17 @@ func genC15Plan(r *sim.Rng, tier string) RelayPlan {
 		pl.Ops = append(pl.Ops, RelayOp{Kind: "join", Cons: c})
 	}
 	pl.Ops = append(pl.Ops, RelayOp{Kind: "settle"})
+	if withRtsp && r.Bool(0.3) {
+		// a long healthy phase first: the players live through two liveness sweeps before anybody stalls (the sweep
+		// compares counters with the snapshot it took the time before)
+		// (a whole GOP per round: a player that waits for a key frame and is fed nothing for two sweeps would be swept too)
+		for i := 0; i < 27; i++ {
+			for s := 0; s < nStreams; s++ {
+				pl.Ops = append(pl.Ops, RelayOp{Kind: "send", Pub: s, N: 14})
+			}
+			pl.Ops = append(pl.Ops, RelayOp{Kind: "settle"}, RelayOp{Kind: "advance", Ms: 10000})
+		}
+	}
 	// main loop: ~1 unit batch per 300..1200 ms of simulated time, stalls and drips interleaved
 	rounds := 25 + r.Intn(20)
 	stallAt := map[int]int{}
